@@ -15,6 +15,7 @@ namespace Vanguard
 
 inductive SrcEnd where
   | eof | unexpected
+  | eofWithData        -- the last bytes are returned together with io.EOF (allowed by io.Reader)
   deriving Repr, DecidableEq
 
 /-- The client's request body: remaining chunks (each `Read` returns bytes of one chunk only). -/
@@ -32,14 +33,17 @@ inductive Err where
   | closed                -- "RPC already ended" (errFinalDataAlreadyWritten / context.Canceled)
   deriving Repr, DecidableEq
 
+def SrcEnd.err (e : SrcEnd) : Err := if e == .unexpected then .unexpectedEOF else .eof
+
 def Source.read (src : Source) (n : Nat) : Bytes × Option Err × Source :=
   match src.chunks.filter (fun c => !c.isEmpty) with
-  | [] => ([], some (if src.ending == .eof then .eof else .unexpectedEOF), { src with chunks := [] })
+  | [] => ([], some src.ending.err, { src with chunks := [] })
   | c :: rest =>
     if n == 0 then ([], none, { src with chunks := c :: rest })
     else
       let rest' := if (c.drop n).isEmpty then rest else c.drop n :: rest
-      (c.take n, none, { src with chunks := rest' })
+      let e := if rest'.isEmpty && src.ending == .eofWithData then some Err.eof else none
+      (c.take n, e, { src with chunks := rest' })
 
 /-- What the client receives. End frames / error bodies whose encoding vanguard does not own
     (JSON, trailer blocks) are kept as abstract items. -/
